@@ -164,6 +164,15 @@ func (ssc *defaultStatefulSetControl) ListRevisions(set *apps.StatefulSet) ([]*k
 		// Revisions controlled by another owner are not part of this set's
 		// history, even if their labels happen to match.
 		if ref := metav1.GetControllerOfNoCopy(&local); ref != nil && ref.UID != set.UID {
+			// During an upgrade from a built-in StatefulSet the revisions handed over
+			// by the upgrade helper keep their reference to the built-in set until the
+			// garbage collector has orphaned them. Reconciling without them would
+			// record a new revision and restart the pods, so wait for them instead.
+			if _, marked := local.Labels[helper.UpgradeToAdvancedStatefulSetAnn]; marked &&
+				ref.Kind == controllerKind.Kind && ref.Name == set.Name {
+				return nil, fmt.Errorf("ControllerRevision %s/%s is marked for upgrade but still controlled by the built-in StatefulSet %s (uid %s); waiting for it to be orphaned",
+					local.Namespace, local.Name, ref.Name, ref.UID)
+			}
 			continue
 		}
 		res = append(res, &local)
